@@ -46,15 +46,75 @@ func fnFamily(id int) func(doc *d.Document) bool {
 	return func(*d.Document) bool { return false }
 }
 
+// builderTurn alternates between the two spellings the public API offers for the same criterion (Neq vs Eq().Not(),
+// NotExists vs Exists().Not(), IsNil / IsTrue / IsFalse vs Eq(literal), IsNilOrNotExists vs the disjunction): C16 states
+// they are the same criterion, so every builder function is exercised against the one model criterion.
+var builderTurn int
+
+func litOf(j interface{}) (interface{}, bool) {
+	m, ok := j.(map[string]interface{})
+	if !ok {
+		return nil, false
+	}
+	if _, isRef := m["ref"]; isRef {
+		return nil, false
+	}
+	l, has := m["lit"]
+	if !has {
+		return nil, false
+	}
+	return decValue(l), true
+}
+
 func decCrit(j interface{}) query.Criteria {
 	m := j.(map[string]interface{})
+	builderTurn++
+	alt := builderTurn%2 == 0
 	if f, ok := m["exists"]; ok {
 		return query.Field(unhx(f.(string))).Exists()
+	}
+	if c, ok := m["not"]; ok && alt {
+		if inner, ok := c.(map[string]interface{}); ok {
+			if f, ok := inner["exists"]; ok {
+				return query.Field(unhx(f.(string))).NotExists()
+			}
+			if a, ok := inner["cmp"]; ok {
+				if arr := a.([]interface{}); arr[0].(string) == "eq" {
+					return query.Field(unhx(arr[1].(string))).Neq(decOperand(arr[2]))
+				}
+			}
+		}
+	}
+	if a, ok := m["or"]; ok && alt {
+		// Eq(nil) Or NotExists on the same field
+		arr := a.([]interface{})
+		l, lok := arr[0].(map[string]interface{})
+		r, rok := arr[1].(map[string]interface{})
+		if lok && rok {
+			if ca, ok := l["cmp"]; ok {
+				if n, ok := r["not"].(map[string]interface{}); ok {
+					carr := ca.([]interface{})
+					if v, isLit := litOf(carr[2]); isLit && v == nil && carr[0].(string) == "eq" && n["exists"] == carr[1] {
+						return query.Field(unhx(carr[1].(string))).IsNilOrNotExists()
+					}
+				}
+			}
+		}
 	}
 	if a, ok := m["cmp"]; ok {
 		arr := a.([]interface{})
 		f := query.Field(unhx(arr[1].(string)))
 		x := decOperand(arr[2])
+		if v, isLit := litOf(arr[2]); isLit && alt && arr[0].(string) == "eq" {
+			switch v {
+			case nil:
+				return f.IsNil()
+			case true:
+				return f.IsTrue()
+			case false:
+				return f.IsFalse()
+			}
+		}
 		switch arr[0].(string) {
 		case "eq":
 			return f.Eq(x)
